@@ -38,6 +38,16 @@ type srvWorld struct {
 	f, f2 *vrig.FakeEIO
 	s, s2 sio.ServerSocket
 	v     vsched.Var
+	// operations issued from inside handlers: started / returned (a hang watchdog: the deadlock detector follows
+	// mutex holders only, a cycle through a WaitGroup or a Once needs this)
+	opStarted, opReturned int
+}
+
+// inHandlerRun issues the operation and counts whether it came back.
+func (w *srvWorld) inHandlerRun(o *srvOp) {
+	w.v.Do(func() { w.opStarted++ })
+	o.run(w)
+	w.v.Do(func() { w.opReturned++ })
 }
 
 type srvOp struct {
@@ -104,11 +114,11 @@ func newSrvWorld(inHandler *srvOp) *srvWorld {
 		if first && inHandler != nil {
 			// the operation is issued from inside an event handler, from inside a disconnecting
 			// handler and from inside an ack callback
-			s.OnEvent("trigger", func() { inHandler.run(w) })
+			s.OnEvent("trigger", func() { w.inHandlerRun(inHandler) })
 			s.OnDisconnecting(func(sio.Reason) {
-				if inHandler.name != "Disconnect(true)" && inHandler.name != "Disconnect(false)" {
-					inHandler.run(w)
-				}
+				// (closing the socket from its own disconnecting handler makes the close wait for this very
+				// handler: the library gives up on that after 10 s, so the call returns late, but it returns)
+				w.inHandlerRun(inHandler)
 			})
 		}
 		w.v.Do(func() { ready++ })
@@ -136,7 +146,7 @@ func srvPair(a, b srvOp, bound int) *vx.Scenario {
 }
 
 func srvInHandler(a, b srvOp, bound int) *vx.Scenario {
-	sc := &vx.Scenario{Name: "server-in-handler/" + a.name + " inside handlers || " + b.name, Bound: bound, Horizon: 40 * time.Second}
+	sc := &vx.Scenario{Name: "server-in-handler/" + a.name + " inside handlers || " + b.name, Bound: bound, Horizon: 60 * time.Second}
 	sc.Body = func(e *vsched.Exec) func() vx.Result {
 		vsched.SetExploring(false)
 		w := newSrvWorld(&a)
@@ -144,7 +154,7 @@ func srvInHandler(a, b srvOp, bound int) *vx.Scenario {
 		vsched.GoQuiet("trigger", func() {
 			w.f.In(`2["trigger"]`)
 			// and from an ack callback
-			w.s.Emit("q", func(string) { a.run(w) })
+			w.s.Emit("q", func(string) { w.inHandlerRun(&a) })
 			vrig.Settle(100 * time.Millisecond)
 			for _, t := range w.f.Texts() {
 				if len(t) > 2 && t[0] == '2' && t[len(t)-5:] == `["q"]` {
@@ -155,7 +165,13 @@ func srvInHandler(a, b srvOp, bound int) *vx.Scenario {
 			w.f.In("1") // DISCONNECT: the disconnecting handler issues the operation once more
 		})
 		vsched.GoQuiet("B:"+b.name, func() { b.run(w) })
-		return func() vx.Result { return vx.Result{Outcome: "done"} }
+		return func() vx.Result {
+			r := vx.Result{Outcome: "done"}
+			if w.opStarted != w.opReturned {
+				r.Violate("hang: an operation issued from inside a handler did not return within the horizon", "%s issued from inside an event handler, a disconnecting handler and an ack callback: started %d time(s), returned %d time(s) within %v of virtual time", a.name, w.opStarted, w.opReturned, 60*time.Second)
+			}
+			return r
+		}
 	}
 	return sc
 }
